@@ -413,3 +413,12 @@ Definition wf_graphb (c : cfg) : bool :=
   && forallb (fun x => forallb (fun y => y <? nnodes c) (descend c (nnodes c) x)) (seq 0 (nnodes c))
   && forallb (fun y => negb (mem y (anc (gi c y))) && forallb (fun a => a <? nnodes c) (anc (gi c y)))
              (seq 0 (nnodes c)).
+
+(* ---- the views the submit waiters poll (schedule.view_todo / view_doing) ---- *)
+Definition view_todo (s : state) : list (node * list tgt) :=
+  map (fun x => (x, todo (getn (ns s) x)))
+      (filter (fun x => (status_eqb (stat (getn (ns s) x)) Waiting || status_eqb (stat (getn (ns s) x)) Running)
+                        && match todo (getn (ns s) x) with [] => false | _ :: _ => true end) (que s)).
+Definition view_doing (s : state) : list (node * list tgt) :=
+  map (fun x => (x, doing (getn (ns s) x)))
+      (filter (fun x => status_eqb (stat (getn (ns s) x)) Running) (que s)).
